@@ -17,23 +17,23 @@ CHECKS = {
    note="Non-orthogonal side/alignment pairs, Center/Ports alignment, placement relative to arrays/groups, relative array placement are unimplemented in the code and outside the quantifier.",
    technique="exhaustive table + property-based testing against a reference placement model; order-independence as a metamorphic relation"),
  "C19": dict(level="exploration", design="4/C19",
-   text="Seeded proptest search over placed gridded-layout libraries (cell DAGs in shuffled order, stepped outlines with ties, 0-5 metals, instances with all four reflection combinations, arbitrary assignments and cuts, port-less abstracts): export lists cells after the cells they instantiate, import succeeds and every field is equal. The exported message with one of 19 faults (each mandatory sub-message removed, undefined/external reference, an instantiated cell removed, cells listed users first, all leaf cells removed, relative placement, non-monotone outline, negative track) must be an error, never a crash.",
+   text="Seeded proptest search over placed gridded-layout libraries (cell DAGs in shuffled order, stepped outlines with ties, 0-5 metals, instances with all four reflection combinations, arbitrary assignments and cuts, port-less abstracts): export lists cells after the cells they instantiate, import succeeds and every field is equal. The exported message with one of 19 faults (each mandatory sub-message removed, undefined/external reference, an instantiated cell removed, cells listed users first, all leaf cells removed, relative placement, non-monotone outline, negative track) must be an error, never a crash. A third sub-check (`roundtrip-large`) exports and re-imports towers of 24-150 cells (levels sharing leaves, listed bottom-up, top-down or shuffled); export called twice on one library must give one message.",
    note="Abstract ports are not generated (import is todo!() and outside the statement's field list).",
    technique="property-based testing: export/import round-trip oracle + fault injection into the exported message"),
 
  "C14": dict(level="exploration", design="4/C14",
-   text="Seeded proptest search in both directions. (->) raw libraries incl. abstract views, cells in shuffled listing order, eight instance orientations, all shape kinds, nets, annotations: to_proto must list every cell after the cells it instantiates, from_proto must succeed and name, units, views, shapes (multisets per layer/purpose number), instances (name, target, location, reflection, rotation), annotations, ports and blockages must be equal. (<-) generated protobuf messages in the supported subset with a matching Layers table: from_proto then to_proto must equal the message (port/blockage layer lists as multisets).",
+   text="Seeded proptest search in both directions. (->) raw libraries incl. abstract views, cells in shuffled listing order, eight instance orientations, all shape kinds, nets, annotations: to_proto must list every cell after the cells it instantiates, from_proto must succeed and name, units, views, shapes (multisets per layer/purpose number), instances (name, target, location, reflection, rotation), annotations, ports and blockages must be equal. (<-) generated protobuf messages in the supported subset with a matching Layers table: from_proto then to_proto must equal the message (port/blockage layer lists as multisets). A third sub-check runs the (->) direction on chains of 30-200 nested cells with shared leaves; to_proto called twice on one library must give one message.",
    note="Units::Pico is outside the schema; order of map-derived lists is C20's subject.",
    technique="property-based testing: round-trip oracle in both directions plus a dependency-order validity predicate"),
 
  "C18": dict(level="exploration", design="4/C18",
-   text="Seeded proptest search over GDSII and LEF library values whose string fields are replaced by strings built from JSON/YAML-special characters and whose doubles span the GDSII range, crossed with {JSON, YAML} x {to_string/from_str, save/open in all three spellings (format method, SerdeFile, free function) on plain, dot and extension file names}; GDSII file -> to_markup -> from_markup -> GDSII bytes (quiet and chatty modes, unset time stamps); histories of several saves to one path; sweeps of 16 doubles per case. Oracle: loaded value equal to the original with doubles compared by bit pattern, decimals by value; bytes identical.",
+   text="Seeded proptest search over GDSII and LEF library values whose string fields are replaced by strings built from JSON/YAML-special characters and whose doubles span the GDSII range, crossed with {JSON, YAML} x {to_string/from_str, save/open in all three spellings (format method, SerdeFile, free function) on plain, dot and extension file names}; GDSII file -> to_markup -> from_markup -> GDSII bytes (quiet and chatty modes, unset time stamps); histories of several saves to one path; sweeps of 16 doubles per case. 200 KB files made of multi-byte characters at every alignment, through every API spelling and both formats. Oracle: loaded value equal to the original with doubles compared by bit pattern, decimals by value; bytes identical.",
    note="TOML not in the property. The harness adds no serde_json/rust_decimal/serde_yaml feature beyond the repository's own.",
    technique="property-based testing: serialise/deserialise round-trip oracle with bit-exact comparison"),
 
  "C11": dict(level="fault_enumeration", design="4/C11",
    text="Exhaustive fault enumeration over 40 rendered LEF texts (with and without lexical variation / non-ASCII comments) and the repository's macro.lef: every prefix at every character boundary, every single-token fault (delete, duplicate, swap, replace by 27 keywords/numbers incl. the extremes of the 96-bit decimal type/punctuation/unterminated string) at every token; floods of 50 000 copies of a token or phrase read on a 2 MB stack; proptest-driven insertion of multi-byte, odd-whitespace (VT, NEL, NBSP, EM SPACE, BOM, NUL) and delimiter characters anywhere; token soup with arbitrary Unicode scalars. Oracle: LefLibrary::open returns, also on its error-report path (panics caught in-process, aborts/hangs by the supervising process with CPU limit); an Ok library can be written and re-read without a crash; allocation at most doubles when the input doubles.",
-   note="Termination = returns before the 30 s in-flight watchdog / 20 s CPU in isolation; linear time approximated by allocation volume.",
+   note="Termination = returns before the 30 s in-flight watchdog / 20 s CPU in isolation; linear time checked on allocation volume and on thread CPU time (n vs 16n).",
    technique="fault enumeration + property-based mutation; crash/hang oracle via supervised child processes"),
  "C16": dict(level="exploration", design="4/C16",
    text="Seeded proptest search over LEF libraries (1-5 macros, SIZE, pins with 1-3 ports, obstruction blocks, rectangles/polygons/paths with LAYER WIDTH, recurring layer names, coordinates with 0-4 significant decimals written with 0-6 decimals, negatives, x != y), 1 in 4 through rendered text and the reader: LefImporter::import must give one abstract cell per macro with outline (0,0),(X,0),(X,Y),(0,Y) and, per pin and for the obstructions, the LEF shapes grouped by layer name in order, every coordinate equal to value x 10000 computed on (mantissa, scale) integers; a coordinate with a non-zero digit beyond the fourth decimal must be an error.",
@@ -54,7 +54,7 @@ CHECKS = {
    note="An import error on a well-formed library is allowed by the statement (counted as refused). MAG != 1, absolute flags, nodes, two different labels on one shape not generated.",
    technique="property-based testing against an independent reference flattener and exact geometry (differential oracle)"),
  "C07": dict(level="exploration", design="4/C07",
-   text="Seeded proptest search over raw layout libraries (cell DAGs in shuffled order, eight instance orientations, rectangles, U/L/histogram/45-degree/star/trapezoid polygons, Manhattan paths, nets, many layers/purposes incl. purposes sharing a number, abstract views beside layouts, empty cells, all four units): export to GDSII must succeed (the documented label-search refusal is accepted only when none of its candidates lies inside the polygon), exported paths keep exactly their points and every emitted label lies in its shape (exact geometry on the GDSII itself), and re-import gives per cell the same multisets of shapes (layer number, purpose number, points, width, lower-cased net) and instances (target, location, reflection, angle) and the same units; a second sub-check does the same on chains of 30-200 nested cells listed top-down, bottom-up or shuffled.",
+   text="Seeded proptest search over raw layout libraries (cell DAGs in shuffled order, eight instance orientations, rectangles, U/L/histogram/45-degree/star/trapezoid polygons, Manhattan paths, nets, many layers/purposes incl. purposes sharing a number, abstract views beside layouts, empty cells, all four units): export to GDSII must succeed (the documented label-search refusal is accepted only when none of its candidates lies inside the polygon), exported paths keep exactly their points and every emitted label lies in its shape (exact geometry on the GDSII itself), and re-import gives per cell the same multisets of shapes (layer number, purpose number, points, width, lower-cased net) and instances (target, location, reflection, angle) and the same units; a second sub-check does the same on chains of 30-200 nested cells (with leaves shared between neighbouring levels) listed top-down, bottom-up or shuffled. Every main sub-check also runs as a `-fresh-thread` twin (each case in a newly spawned thread).",
    note="Cell order, rectangle corner order, rectangle-shaped polygons, None vs Some(0) angle, annotations and instance names are not compared; 'No valid label location' for a non-rectilinear named polygon is the documented refusal.",
    technique="property-based testing: export/import round-trip oracle plus exact-geometry validity predicates on the exported GDSII"),
 
@@ -85,12 +85,12 @@ CHECKS = {
    note="Trusted base: the reference encoder in harness/src/refmodel/gdsspec.rs. Conformant = records in BNF order.",
    technique="property-based testing: differential oracle, reference encoder -> reader under test"),
  "C10": dict(level="fault_enumeration", design="4/C10",
-   text="Exhaustive fault enumeration over 30 generated and 3 repository streams: every truncation point (must be rejected before ENDLIB), every single-record fault (length/type/datatype rewrites, empty payload, delete/duplicate/swap/splice) at every record, a well-formed record of each of the 64 record types x 11 payload shapes inserted at every record boundary, floods of 100 000 copies of such a record read on a 2 MB stack, a stream with a 32 KB record, extreme and unnormalised reals, plus proptest-driven byte mutations and noise. Oracle: the call returns (panics caught in-process; aborts, spinning and blocked calls caught by a supervising process with CPU limit and idle detection), a truncated stream is never accepted, and any returned library re-writes and re-reads to itself; allocation volume at most doubles when the input doubles.",
-   note="Termination = returns before the hang watchdog / 60 s CPU; linear time approximated by allocation volume. Repository files are faulted at every 9th record in the quick tier, every record in thorough.",
+   text="Exhaustive fault enumeration over 30 generated and 3 repository streams: every truncation point (must be rejected before ENDLIB), every single-record fault (length/type/datatype rewrites, empty payload, delete/duplicate/swap/splice) at every record, a well-formed record of each of the 64 record types x 11 payload shapes inserted at every record boundary, floods of 100 000 copies of such a record read on a 2 MB stack, a stream with a 32 KB record, extreme and unnormalised reals, streams whose records grow and shrink in size, a stream with every optional record on every element kind, hierarchies of 8-64 levels each placing the next 2-4 times (a few kilobytes, astronomically many paths), plus proptest-driven byte mutations and noise. Oracle: the call returns (panics caught in-process; aborts, spinning and blocked calls caught by a supervising process with CPU limit and idle detection), a truncated stream is never accepted, and any returned library re-writes and re-reads to itself; allocation volume at most doubles when the input doubles and thread CPU time grows at most 64-fold for a 16-fold input (five stream shapes, repeated up to three times before it counts).",
+   note="Termination = returns before the hang watchdog / 60 s CPU; linear time checked on allocation volume and on thread CPU time (n vs 16n). Repository files are faulted at every 9th record in the quick tier, every record in thorough.",
    technique="fault enumeration + property-based byte mutation; crash/hang oracle via supervised child processes; re-write round-trip oracle"),
 
  "C15": dict(level="exploration", design="4/C15",
-   text="Exhaustive over every power-of-two neighbourhood (+-16 ulp) in range and every 1-/2-bit mantissa at every exponent, plus seeded random doubles and normalised reals (ties, 54-56 significant bits), all compared bit-for-bit with an exact integer model of the 8-byte real; reals also checked inside written UNITS/MAG/ANGLE records.",
+   text="Exhaustive over every power-of-two neighbourhood (+-16 ulp) in range and every 1-/2-bit mantissa at every exponent, plus seeded random doubles and normalised reals (ties, 54-56 significant bits), all compared bit-for-bit with an exact integer model of the 8-byte real; reals also checked inside written UNITS/MAG/ANGLE records (on structure references, array references and texts; either record optional; streams of 10-40 transforms drawn from a small pool of reals, so that values recur after others were decoded).",
    note="Trusted base: the integer reference model harness/src/refmodel/gdsreal.rs; random part bounded by the case counts in evidence.",
    technique="property-based testing: exhaustive enumeration + proptest-driven random search against an exact reference codec (differential oracle)"),
 }
